@@ -31,6 +31,7 @@ func init() {
 			{Name: "escaped", Stream: c17StreamEscaped, Eval: c17Eval},
 			{Name: "raw", Stream: c17StreamRaw, Eval: c17Eval},
 			{Name: "random", N: constN(20000, 400000), Gen: c17GenRandom, Eval: c17Eval},
+			{Name: "braced-paths", Stream: c17StreamBraces, Eval: c17EvalBraces},
 			{Name: "directive-params", N: func(string) int { return 3 * len(c17Templates) }, Gen: func(r *xrand.Rand, idx int, tier string) *fw.Case {
 				return &fw.Case{Meta: map[string]string{"kind": "template"}, Ints: map[string]int{"t": idx}, Docs: []run.Doc{{}}}
 			}, Eval: c17EvalTemplate},
@@ -450,4 +451,77 @@ func c17EvalTemplate(t *fw.T, c *fw.Case) {
 		return
 	}
 	t.Distinct("template " + tp[0][:min(len(tp[0]), 40)] + tp[1])
+}
+
+
+// ---- quoted paths with {parameter} segments: the name is what stands between the braces, byte for byte ----
+
+var c17BraceSymbols = []string{"a", "b", " ", "\t", "é"}
+
+func c17StreamBraces(t *fw.T, shard, nshards int, emit func(*fw.Case)) {
+	var names []string
+	enumerate(c17BraceSymbols, 3, func(s string) { names = append(names, s) })
+	n := 0
+	for _, a := range names {
+		n++
+		if n%nshards == shard {
+			emit(&fw.Case{Meta: map[string]string{"a": a, "b": ""}, Docs: []run.Doc{{}}})
+		} else {
+			emit(nil)
+		}
+		if len([]rune(a)) > t.Pick(2, 3) {
+			continue
+		}
+		for _, b := range names {
+			if len([]rune(b)) > t.Pick(2, 3) {
+				continue
+			}
+			n++
+			if n%nshards == shard {
+				emit(&fw.Case{Meta: map[string]string{"a": a, "b": b}, Docs: []run.Doc{{}}})
+			} else {
+				emit(nil)
+			}
+		}
+	}
+}
+
+func c17EvalBraces(t *fw.T, c *fw.Case) {
+	a, b := c.Meta["a"], c.Meta["b"]
+	path := "/x/{" + a + "}"
+	if b != "" {
+		path += "/y/{" + b + "}"
+	}
+	hostDocs := []string{
+		"JSIGHT 0.3\nGET " + quoteParam(path) + "\n  200 any\n",
+		"JSIGHT 0.3\nURL " + quoteParam(path) + "\n  POST\n    Request any\n    200 any\n",
+		"JSIGHT 0.3\nURL " + quoteParam(path) + "\n  Protocol json-rpc-2.0\n  Method m\n    Params\n    {}\n",
+	}
+	keys := []string{"http GET " + path, "http POST " + path, "json-rpc-2.0 m " + path}
+	k := int(xrand.HashStr(a+"|"+b) % 3)
+	d := run.Single([]byte(hostDocs[k]))
+	c.Docs = []run.Doc{d}
+	o := t.Exec(d)
+	t.Count("roundtrips_checked")
+	t.Count("braced_paths_checked")
+	if a == b { // the same name twice in one path
+		if o.Outcome != run.Rejected {
+			t.Violation("braces:duplicate-accepted", fmt.Sprintf("path %q repeats the parameter %q, result %s", path, a, describe(o)))
+		}
+		return
+	}
+	if o.Outcome != run.Accepted {
+		t.Violation("braces:valid-path-rejected:"+run.MsgTemplate(o.Msg), fmt.Sprintf("path %q (parameters %q and %q differ) is not accepted: %s", path, a, b, describe(o)))
+		return
+	}
+	doc, err := jsonx.Parse(o.JSON)
+	if err != nil {
+		return
+	}
+	iv := doc.Root.Get("interactions").Get(keys[k])
+	if iv == nil || iv.Get("path").S() != path {
+		t.Violation("braces:roundtrip", fmt.Sprintf("path %q is not in the catalog as written (key %q)", path, keys[k]))
+		return
+	}
+	t.Distinct("braces " + shapeOf(a) + "|" + shapeOf(b))
 }
